@@ -187,14 +187,16 @@ bool congruence<Number>::operator<=(const congruence<Number> &o) const {
   } else if (m_a == 0 && o.m_a == 0) {
     return (m_b == o.m_b);
   } else if (m_a == 0) {
-    if ((m_b % o.m_a) == (o.m_b % o.m_a)) {
+    // (operator% has the sign of its left operand: compare the
+    // difference rather than two remainders)
+    if ((m_b - o.m_b) % o.m_a == 0) {
       return true;
     }
   } else if (o.m_a == 0) {
     // aZ+b with a != 0 is never included in a single number
     return false;
   }
-  return (m_a % o.m_a == 0) && (m_b % o.m_a == o.m_b % o.m_a);
+  return (m_a % o.m_a == 0) && ((m_b - o.m_b) % o.m_a == 0);
 }
 
 template <typename Number>
@@ -244,13 +246,28 @@ congruence<Number>::operator&(const congruence<Number> &o) const {
   } else {
     // pre: a and o.a != 0
     Number x = gcd(m_a, o.m_a);
-    if (m_b % x == (o.m_b % x)) {
-      // the part max(b,o.b) needs to be verified. What we really
-      // want is to find b'' such that
-      // 1) b'' % lcm(a,a') == b  % lcm(a,a'), and
-      // 2) b'' % lcm(a,a') == b' % lcm(a,a').
-      // An algorithm for that is provided in Granger'89.
-      return congruence<Number>(lcm(m_a, o.m_a), max(m_b, o.m_b));
+    if ((o.m_b - m_b) % x == 0) {
+      // We need b'' such that b'' = b (mod a) and b'' = b' (mod a'),
+      // that is b'' = b + a*t with (a/x)*t = (b'-b)/x (mod a'/x).
+      // Since a/x and a'/x are coprime, t is (b'-b)/x times the
+      // inverse of a/x modulo a'/x (extended Euclid).
+      Number a1 = m_a / x;
+      Number a2 = o.m_a / x;
+      Number r0 = a2, r1 = a1 % a2;
+      Number t0 = 0, t1 = 1;
+      while (r1 != 0) {
+        Number q = r0 / r1;
+        Number r2 = r0 - q * r1;
+        r0 = r1;
+        r1 = r2;
+        Number t2 = t0 - q * t1;
+        t0 = t1;
+        t1 = t2;
+      }
+      // here r0 = 1 and t0 is the inverse of a1 modulo a2 (if a2 = 1
+      // any t works and t0 = 0)
+      Number t = (((o.m_b - m_b) / x) * t0) % a2;
+      return congruence<Number>(lcm(m_a, o.m_a), m_b + m_a * t);
     } else {
       return congruence<Number>::bottom();
     }
